@@ -43,6 +43,8 @@ structure CSt where
   curId : Std.HashMap Nat Bytes := {}
   appendId : Std.HashMap Nat Bytes := {}
   deadlock : Bool := false
+  /-- the goroutines the watchdog was waiting for -/
+  deadTids : List Nat := []
   /-- a goroutine moved although the lock it needs was held (`UX` line) -/
   lockIgnored : Bool := false
   finalO : Array (Nat × List String × List String × List String) := #[]
@@ -149,6 +151,9 @@ def finishCase (s : CSt) : CSt :=
   let (s, w) := s.ensureWorld
   let s := s.spec "C14" "noDeadlock" (!s.deadlock) "watchdog: a goroutine neither parked nor finished"
   let s := s.spec "C13" "noDeadlock" (!s.deadlock) "watchdog: a goroutine neither parked nor finished"
+  -- C15 "always ends": the goroutine that never came back is an iteration
+  let s := s.spec "C15" "iterationEnds" (!(s.deadlock && s.ops.any (fun o => (o.kind == "iter" || o.kind == "iterb") && s.deadTids.contains o.tid)))
+    "watchdog: an Iterator call neither returned nor reached its next step"
   let s := s.spec "C13" "lockExcludes" (!s.lockIgnored) "a goroutine moved although the lock it needs was held"
   if s.deadlock || s.lockIgnored then s else
   -- a size-bounded merge trims its log: what is claimed of logs that only grow (causal closure of
@@ -296,7 +301,7 @@ def handleConc (s : CSt) (line : String) : CSt :=
   match t with
   | "H" :: idx :: _ =>
     { s with uni := {}, logs := #[], ops := #[], world := none, lockOrder := #[], doneAt := {}, joinStart := {},
-             sNo := 0, curId := {}, appendId := {}, deadlock := false, lockIgnored := false, finalO := #[], hist := idx }
+             sNo := 0, curId := {}, appendId := {}, deadlock := false, deadTids := [], lockIgnored := false, finalO := #[], hist := idx }
   | ["N", l, logId, clk, sk] =>
     let lg : Log := { id := strBytes logId, entries := [], heads := [], nextIdx := [],
                       clock := { id := strBytes clk, time := 0 }, sortFn := parseSort sk }
@@ -337,7 +342,7 @@ def handleConc (s : CSt) (line : String) : CSt :=
     let s := if to == "done" then { s with doneAt := s.doneAt.insert t s.sNo } else s
     let s := if frm == "join.enter" then { s with joinStart := s.joinStart.insert t s.sNo } else s
     { s with world := some w' }
-  | "D" :: _ => { s with deadlock := true }
+  | "D" :: rest => { s with deadlock := true, deadTids := (rest.flatMap (fun t => t.splitOn ",")).filterMap (·.toNat?) }
   | "UX" :: _ => { s with lockIgnored := true }
   | ["O", l, ents, raw, vals] =>
     { s with finalO := s.finalO.push (l.toNat!, parseList ents, parseList raw, parseList vals) }
